@@ -33,7 +33,7 @@ PROBES = ["block_roundtrip", "block_odd_tx_count", "block_pow2_tx_count", "block
           "proof_none_matched", "proof_all_matched", "corrupt_block_rejected_merkle", "corrupt_block_rejected_parse",
           "corrupt_block_accepted_root_consistent", "corrupt_proof_rejected", "flagflip_proof_accepted_sound",
           "filter_multi_element_match", "filter_size_1", "filter_size>=1000", "tweak>=2^32", "nfuncs_0", "nfuncs>=20",
-          "filterload_roundtrip", "merkle_direct", "ltc_block", "witness_tx_in_block"]
+          "filterload_roundtrip", "merkle_direct", "ltc_block", "witness_tx_in_block", "proof_relayed_again"]
 
 
 # ---------------------------------------------------------------------------------------------
@@ -93,7 +93,7 @@ def gen_plan(rng, tier, index, config=None):
                                ("alter_root", 2), ("flip_flag", 2), ("extra_flag_byte", 1)])
             mode = r.weighted([("none", 1), ("all", 1), ("one", 3), ("few", 3), ("half", 2)])
             steps.append({"op": "send_proof", "block": "b%d" % r.below(nblocks), "match_mode": mode, "match_seed": r.bits(32),
-                          "corrupt": corr, "pos": r.bits(32), "bit": r.below(8)})
+                          "corrupt": corr, "pos": r.bits(32), "bit": r.below(8), "repeat": r.pick([0, 0, 1, 2])})
         elif op == "mutate":
             steps.append({"op": "mutate", "block": "b%d" % r.below(nblocks),
                           "field": r.pick(["nonce", "set_nonce", "timestamp", "difficulty", "version", "merkle_root",
@@ -390,6 +390,25 @@ def _op_send_proof(ctx, W, st):
     except Exception as e:
         accepted = False
         err = type(e).__name__
+    if accepted:
+        # the client consumes the list it was given (ids are ticked off as the transactions arrive); the same
+        # merkleblock relayed again by another peer must still yield the full list
+        try:
+            d["tx_hashes"].clear()
+        except Exception:
+            pass
+        for _ in range(st.get("repeat") or 0):
+            ctx.probe("proof_relayed_again")
+            try:
+                d2 = W.net.message.parse("merkleblock", data)
+                got2 = [bytes(h) for h in d2["tx_hashes"]]
+                d2["tx_hashes"].clear()
+            except Exception as e:
+                got2 = ("raised", type(e).__name__)
+            if got2 != got:
+                ctx.violate("C14", "same-proof-different-result-when-relayed-again", {"first": len(got), "again": got2 if isinstance(got2, tuple) else len(got2),
+                                                                                      "corrupt": corr})
+                break
     exp = [i for i, m in zip(blk["ids"], matches) if m]
     ctx.obs("send_proof", st["block"], st["match_mode"], corr, accepted, len(exp))
     ctx.sig("proof|n%d|m%d|%s|%s" % (total, len(exp), corr, accepted))
